@@ -31,6 +31,7 @@ type Case struct {
 	Yields  []int  `json:"yields"`
 	ByValue []bool `json:"byValue"`
 	GC      bool   `json:"gc"`
+	Warm    int    `json:"warm,omitempty"` // buffers obtained from the allocator (and put back) before the by-value copies are taken
 	Repeat  int    `json:"repeat"`
 }
 
@@ -67,6 +68,9 @@ func Check(c *Case) (res kit.Result) {
 	if c.GC {
 		res.Class("gcDuringRun")
 	}
+	if c.Warm > 0 {
+		res.Class("allocatorUsedBeforeCopies")
+	}
 	for _, bv := range c.ByValue {
 		if bv {
 			res.Class("allocatorCopiedByValue")
@@ -81,6 +85,17 @@ func runOnce(c *Case) (string, int64) {
 	al := signal.Allocator{Channels: C, Length: L, Capacity: K}
 	pool := kit.NewAnyPool(c.T, al)
 	want := kit.Hdr{Len: C * L, Cap: C * K, Length: L, Capacity: K, Channels: C, BitDepth: kit.Info(c.T).Bits}
+	if c.Warm > 0 && c.Warm <= 8 {
+		var warm []kit.AnyBuf
+		for i := 0; i < c.Warm; i++ {
+			warm = append(warm, pool.Get())
+		}
+		for i, b := range warm {
+			if i%2 == 0 { // some stay checked out (and are simply dropped), some go back
+				pool.Put(b)
+			}
+		}
+	}
 	errs := make([]string, c.G) // one slot per goroutine: no sharing between workers
 	one := kit.AllocAny(c.T, signal.Allocator{Channels: 1, Length: 1, Capacity: 1})
 	zero := one.Get(0)
@@ -184,7 +199,7 @@ func FP(c *Case) uint64 {
 	if c.GC {
 		gc = 1
 	}
-	h.Ints([]int{c.C, c.L, c.K, c.G, c.M, c.Procs, gc, c.Repeat})
+	h.Ints([]int{c.C, c.L, c.K, c.G, c.M, c.Procs, gc, c.Repeat, c.Warm})
 	h.Ints(c.Yields)
 	for _, b := range c.ByValue {
 		if b {
@@ -212,6 +227,9 @@ func Gen(t *rapid.T) *Case {
 	c.Procs = rapid.SampledFrom([]int{1, 2, 4, 8, 16}).Draw(t, "procs")
 	c.GC = rapid.IntRange(0, 3).Draw(t, "gc") == 0
 	c.Repeat = 1
+	if rapid.Bool().Draw(t, "warmSel") {
+		c.Warm = rapid.IntRange(1, 4).Draw(t, "warm")
+	}
 	mode := rapid.IntRange(0, 2).Draw(t, "valueMode")
 	for g := 0; g < c.G; g++ {
 		c.Yields = append(c.Yields, rapid.IntRange(0, 7).Draw(t, "yield"))
